@@ -1,13 +1,13 @@
 SPECIFICATION ESpec
 CONSTANTS
-  Plain = {p1, p2, p3, p4}
+  Plain = {p1, p2, p3, p4, p5}
   Limit = 2
   Full = 4
   Macro = FALSE
   Witness = "none"
-  MaxId = 12
+  MaxId = 13
   MaxJobs = 2
-  MaxCrash = 1
+  MaxCrash = 0
   Forge = {}
   TamperOn = FALSE
   Deviations = {}
